@@ -54,6 +54,10 @@
 (*    routes.  What it leaves behind stays in ns (nobody's), and a later Setup -- of a pod that  *)
 (*    is given the same address, on the same or on another ENI -- must satisfy every Setup      *)
 (*    clause in spite of it.                                                                    *)
+(*  * An ENI may vanish from the node (detached / unplugged) while pods still use it: EniGone.  *)
+(*    From then on nothing is promised about traffic of those pods through it (c.enigone), but  *)
+(*    their Teardown -- which then runs without an ENI index -- still has to remove every       *)
+(*    pod-specific rule, route and link and to leave the other pods alone.                      *)
 (*  * A Setup that returns an error promises nothing for that attachment; it must still leave   *)
 (*    the other pods alone.                                                                     *)
 EXTENDS Fib, SequencesExt
@@ -132,7 +136,7 @@ PodPeerName(c) == IF c.dp = "exclusive" THEN "veth1" ELSE c.ifname
 ToPkts(S, L, c, f) ==
     {Pkt(<<>>, IPof(c, f), "")}
     \cup (IF c.dp = "policy"
-          THEN {Pkt(Ext(f), IPof(c, f), c.eni)}
+          THEN (IF c.enigone THEN {} ELSE {Pkt(Ext(f), IPof(c, f), c.eni)})
                \cup { Pkt(IPof(L[b], f), IPof(c, f), L[b].hostveth) :
                         b \in { x \in Atts : IsLive(L, x) /\ L[x].dp = "policy" /\ x # c.att /\ f \in Fams(L[x]) } }
           ELSE {})
@@ -146,7 +150,7 @@ ViolHost(S, L, c) ==
     \cup (IF \A f \in Fams(c) : \A pk \in ToPkts(S, L, c, f) : \A r \in Lookups(H, pk) :
                   r.kind = "unicast" /\ r.dev = d /\ r.gw = NoGw
           THEN {} ELSE {"to_pod_not_delivered_to_pod_interface"})
-    \cup (IF c.dp = "policy" =>
+    \cup (IF c.dp = "policy" /\ ~c.enigone =>
               \A f \in Fams(c) : \A r \in Lookups(H, Pkt(IPof(c, f), Ext(f), c.hostveth)) :
                   r.kind = "unicast" /\ r.dev = c.eni /\ r.gw = (IF c.strip THEN EGWof(c, f) ELSE GWof(c, f))
           THEN {} ELSE {"from_pod_not_via_owning_eni_and_its_gateway"})
@@ -179,6 +183,13 @@ Init == /\ ns = [n \in NsIds |-> EmptyNs]
         /\ owned = [a \in Atts |-> {}]
 
 Reset(S) == ns' = S /\ live' = [a \in Atts |-> NoAtt] /\ owned' = [a \in Atts |-> {}]      \* (I)
+
+(* (I) environment: the ENI named e vanished from the host namespace, S is the state afterwards *)
+EniGone(e, S) ==
+    /\ ns' = S
+    /\ live' = [a \in Atts |-> IF IsLive(live, a) /\ live[a].eni = e /\ live[a].dp \in {"policy", "ipvlan", "vlan"}
+                               THEN [live[a] EXCEPT !.enigone = TRUE] ELSE live[a]]
+    /\ owned' = [a \in Atts |-> owned[a] \cap Elems(S[0])]
 
 SetupViol(c, S) ==
     LET L == [live EXCEPT ![c.att] = c] IN
